@@ -63,6 +63,12 @@ def run(ctx):
                 return gen.arr(rng, s, "<f8")
             rec = {"type": kind, "kwargs": [[f, val(s)] for f, s in zip(fields, shs)]}
             ok = all(s == shs[0] for s in shs)
+            if rng.random() < 0.25:
+                # derived types passed explicitly (as dataclasses.replace or a copied keyword dictionary would): the
+                # verdict on the parameters is the same
+                tsh = rng.choice(shs)
+                tval = lambda: rng.choice([{"a": "<i8", "sh": [len(tsh)], "x": np.array(tsh, dtype="<i8").tobytes().hex()}, None])
+                rec["kwargs"] += [["input_type", {"d": [["input", tval()]]}], ["output_type", {"d": [["output", tval()]]}]]
             one(rec, ok, kind, {"site": kind})
     # CubaLIF: five shapes + w_in forms
     for _ in range(ctx.n(250)):
@@ -141,8 +147,14 @@ def run(ctx):
                 else:
                     ishape = {"t": [gen.pyint(9), gen.pyint(8)]}
                 w = [2, 1, 3] if kind == "Conv1d" else [2, 1, 3, 3]
+                # the verdict on the padding string does not depend on the other hyper-parameters
+                if kind == "Conv1d":
+                    stride = gen.pyint(rng.choice([1, 1, 2, 3])); dil = gen.pyint(rng.choice([1, 1, 2]))
+                else:
+                    stride = rng.choice([gen.pyint(1), gen.pyint(2), {"t": [gen.pyint(1), gen.pyint(2)]}, {"t": [gen.pyint(3), gen.pyint(1)]}])
+                    dil = rng.choice([gen.pyint(1), gen.pyint(2), {"t": [gen.pyint(1), gen.pyint(2)]}])
                 kw = [["input_shape", ishape], ["weight", gen.arr(rng, w)],
-                      ["stride", gen.pyint(1)], ["padding", pad], ["dilation", gen.pyint(1)], ["groups", gen.pyint(1)],
+                      ["stride", stride], ["padding", pad], ["dilation", dil], ["groups", gen.pyint(1)],
                       ["bias", gen.arr(rng, [2])]]
                 one({"type": kind, "kwargs": kw}, ok, f"{kind}_padding_{form}",
                     {"site": kind, "padding": form, "input_shape": "given" if shape_given else "none"},
